@@ -16,7 +16,7 @@ from typing import Dict, List, Optional, Set
 
 from sa import partial
 from sa.guards import assigned_names, facts_at, root_name
-from sa.model import (AnalysisError, FuncInfo, Program, callees, closure,
+from sa.model import (AnalysisError, FuncInfo, Program, callees, closure, parent,
                       src, walk_local)
 from sa.report import Check
 from sa.stackstate import StackAnalysis, bool_flags, find_stacks
@@ -168,6 +168,20 @@ def d2_escape(chk: Check, cl: List[FuncInfo]) -> None:
                              "raises {} which is not a YAMLPathException; "
                              "callers of the parser (CLI tools) catch only "
                              "the library family".format(cls))
+            elif isinstance(n, ast.Assert):
+                # an assert is a raise of AssertionError whenever its test
+                # can be false -- and it states a belief the parser then
+                # relies on; the library has none, so any is reported
+                if any(f.kind == "cond" and f.pol and
+                       src(f.expr) == src(n.test) for f in facts_at(n)):
+                    chk.ok("C14-D2a", fi, n, "assert " + src(n.test)[:60],
+                           "restates a dominating test; cannot fail")
+                    continue
+                chk.fail("C14-D2a", fi, n, "assert " + src(n.test)[:60],
+                         "raises AssertionError (not a YAMLPathException) "
+                         "for input that makes `{}` false; under -O the "
+                         "statement vanishes and the code below runs with "
+                         "the belief unchecked".format(src(n.test)[:60]))
         for site in partial.find_sites(fi):
             # stack accesses are D1's business
             if site.container is not None and \
@@ -454,6 +468,154 @@ def d2c_templates(chk: Check, cl: List[FuncInfo],
                          "exception is not a YAMLPathException")
 
 
+def d6_typed_segments(chk: Check) -> None:
+    """Every segment the parser records has a type.  The pending type is a
+    variable that starts as None and is reset to None after each segment;
+    an arm that records `(segment_type, text)` while it may still be None
+    hands the evaluator a segment no handler exists for (it raises
+    NotImplementedError), and the stringifier writes it as nothing."""
+    prog = chk.prog
+    chk.rule("C14-D6", "where the parser records a segment with the pending "
+             "type variable, that variable cannot be None (an `is <member>` "
+             "/ `is not None` fact, a refusing `is None` arm before it, or "
+             "the default-to-KEY statement just before)", floor=7)
+    fi = prog.func("YAMLPath._parse_path")
+    tvar = None
+    for a in walk_local(fi.node):
+        if isinstance(a, ast.AnnAssign) and isinstance(a.target, ast.Name) \
+                and "PathSegmentTypes" in src(a.annotation) and \
+                isinstance(a.value, ast.Constant) and a.value.value is None:
+            tvar = a.target.id
+    if tvar is None:
+        raise AnalysisError("pending segment type variable not found")
+
+    def is_none_test(e: ast.AST) -> bool:
+        return isinstance(e, ast.Compare) and len(e.ops) == 1 and \
+            isinstance(e.ops[0], ast.Is) and src(e.left) == tvar and \
+            src(e.comparators[0]) == "None"
+
+    def excluded(site: ast.AST) -> Optional[str]:
+        for f in facts_at(site):
+            if f.kind != "cond":
+                continue
+            e, pol = f.expr, f.pol
+            if is_none_test(e) and not pol:
+                return "under `not ({} is None)`".format(tvar)
+            if isinstance(e, ast.Compare) and len(e.ops) == 1 and \
+                    src(e.left) == tvar and pol:
+                if isinstance(e.ops[0], ast.IsNot) and \
+                        src(e.comparators[0]) == "None":
+                    return "under `{} is not None`".format(tvar)
+                if isinstance(e.ops[0], (ast.Is, ast.Eq)) and \
+                        src(e.comparators[0]).startswith(
+                            "PathSegmentTypes."):
+                    return "under `{}`".format(src(e))
+        # `if T is None: T = <member>` as the statement before
+        st = site
+        while not isinstance(st, ast.stmt):
+            st = parent(st)
+        blk = parent(st)
+        for field in ("body", "orelse", "finalbody"):
+            body = getattr(blk, field, None)
+            if isinstance(body, list) and st in body:
+                i = body.index(st)
+                if i > 0 and isinstance(body[i - 1], ast.If) and \
+                        is_none_test(body[i - 1].test) and any(
+                            isinstance(x, ast.Assign) and
+                            src(x.targets[0]) == tvar and
+                            src(x.value).startswith("PathSegmentTypes.")
+                            for x in body[i - 1].body):
+                    return "defaulted to {} just before".format(
+                        src(body[i - 1].body[0].value))  # type: ignore
+        return None
+
+    n = 0
+    for c in walk_local(fi.node):
+        if not isinstance(c, ast.Call):
+            continue
+        uses = None
+        if isinstance(c.func, ast.Attribute) and c.func.attr == "append" \
+                and c.args and isinstance(c.args[0], ast.Tuple) and \
+                len(c.args[0].elts) == 2 and \
+                src(c.args[0].elts[0]) == tvar:
+            uses = "record ({}, {})".format(tvar, src(c.args[0].elts[1])[:30])
+        elif src(c.func).endswith("_expand_splats") and any(
+                src(a) == tvar for a in c.args):
+            uses = "record _expand_splats(..., {})".format(tvar)
+        if uses is None:
+            continue
+        n += 1
+        why = excluded(c)
+        if why is None and "CollectorTerms(" in uses:
+            # the one site not decided by a local fact: a Collector is
+            # recorded when its closing parenthesis brings the nesting
+            # level back to 0; the arm that raises the level assigns the
+            # type.  Checked: that arm exists and assigns a member.
+            for arm in walk_local(fi.node):
+                if isinstance(arm, ast.If) and any(
+                        isinstance(x, ast.AugAssign) and
+                        isinstance(x.op, ast.Add) and
+                        "collector" in src(x.target) for x in arm.body) \
+                        and any(isinstance(x, ast.Assign) and
+                                src(x.targets[0]) == tvar and
+                                src(x.value).startswith("PathSegmentTypes.")
+                                for x in arm.body):
+                    why = ("the arm that opens a Collector (raises the "
+                           "nesting level) assigns {} a member; no local "
+                           "fact needed".format(tvar))
+        if why:
+            chk.ok("C14-D6", fi, c, uses, why)
+        else:
+            chk.fail("C14-D6", fi, c, uses,
+                     "`{}` may still be None here (it is reset after every "
+                     "segment and after a Collector closes): the parser "
+                     "accepts text such as `[(a)]` and records a segment "
+                     "without a type, which get_nodes() answers with "
+                     "NotImplementedError".format(tvar))
+    if n < 7:
+        raise AnalysisError("typed record sites of the parser: {}".format(n))
+
+
+def d7_attrs_become_text_by_conversion(chk: Check) -> None:
+    """The attributes of a segment are text, an int (INDEX), or one of the
+    terms objects (SearchTerms, CollectorTerms, SearchKeywordTerms -- a
+    Collector that starts with `&` is even recorded under the ANCHOR
+    type).  The stringifier therefore turns them into text by conversion
+    (`str()`, `.format()`, an f-string); joining them with `+` raises
+    TypeError for every non-text attribute."""
+    prog = chk.prog
+    chk.rule("C14-D7", "the stringifier uses the attributes of a segment "
+             "only through str() / format(), never as an operand of `+`",
+             floor=5)
+    fi = prog.func("YAMLPath._stringify_yamlpath_segments")
+    loops = [n for n in fi.node.body if isinstance(n, ast.For) and
+             isinstance(n.target, ast.Tuple) and len(n.target.elts) == 2]
+    if len(loops) != 1:
+        raise AnalysisError("stringifier loop not found")
+    av = src(loops[0].target.elts[1])
+    n = 0
+    for u in ast.walk(loops[0]):
+        if not (isinstance(u, ast.Name) and u.id == av and
+                isinstance(u.ctx, ast.Load)):
+            continue
+        p_ = parent(u)
+        n += 1
+        text = "use of {} in `{}`".format(av, src(p_)[:50])
+        if isinstance(p_, ast.BinOp) and isinstance(p_.op, ast.Add) or \
+                isinstance(p_, ast.AugAssign) and \
+                isinstance(p_.op, ast.Add) and p_.value is u:
+            chk.fail("C14-D7", fi, p_, text,
+                     "`{}` is not always text (int for INDEX, a terms "
+                     "object for searches and for a Collector recorded "
+                     "under another type such as `(&a)` after a separator): "
+                     "`+` raises TypeError out of str(path)".format(av))
+        else:
+            chk.ok("C14-D7", fi, p_, text, "converted, not concatenated")
+    if n < 5:
+        raise AnalysisError("uses of the segment attributes in the "
+                            "stringifier: {}".format(n))
+
+
 def run(chk: Check) -> None:
     prog = chk.prog
     cl = parse_closure(prog)
@@ -461,4 +623,6 @@ def run(chk: Check) -> None:
     d2_escape(chk, cl)
     d2c_templates(chk, cl)
     d3_termination(chk, cl)
+    d6_typed_segments(chk)
+    d7_attrs_become_text_by_conversion(chk)
     chk.notes.append("closure: {} functions".format(len(cl)))
